@@ -250,13 +250,16 @@ func (e *etcdProxy) Watch(ctx context.Context, key string, revision uint64) (<-c
 
 	outputCh := make(chan []*mvccpb.Event, 100)
 	closed := e.closed
+	// the goroutine below outlives the read lock: it must not read e.client, which the leader-check
+	// loop replaces (and sets to nil) under the write lock
+	client := e.client
 	go func() {
 		defer util.Recover()
 		defer close(outputCh)
 		ctx, cancel := context.WithCancel(ctx)
 		defer cancel()
 		klog.InfoS("etcd proxy start watching")
-		inputCh := e.client.Watch(ctx, key, clientv3.WithRev(int64(revision)), clientv3.WithPrefix())
+		inputCh := client.Watch(ctx, key, clientv3.WithRev(int64(revision)), clientv3.WithPrefix())
 		for {
 			select {
 			case <-closed:
